@@ -1,5 +1,6 @@
 """C07 -- edit changes only the named fields; hash-bearing data is untouched."""
 import os
+import json
 import hashlib
 
 import core
@@ -128,15 +129,15 @@ def run(ctx, model_ok):
             if isinstance(exc, IndexError) and after == before:
                 cases.append((req_spec(req, via), before, None, desc))
                 return
-            ctx.fail("edit-raised", desc, "an edited metafile", f"{type(exc).__name__}: {exc}")
+            ctx.fail("edit-raised", dict(desc, base_hex=before.hex()), "an edited metafile", f"{type(exc).__name__}: {exc}")
             return
         if after is None:
-            ctx.fail("metafile-missing-after-edit", desc, "a metafile", None)
+            ctx.fail("metafile-missing-after-edit", dict(desc, base_hex=before.hex()), "a metafile", None)
             return
         cases.append((req_spec(req, via), before, after, desc))
         probs = frame_problems(req, before, after)
         if probs:
-            ctx.fail("edit-frame", desc, "only the named fields change", probs[:5])
+            ctx.fail("edit-frame", dict(desc, base_hex=before.hex()), "only the named fields change", probs[:5])
 
     EC.enumerate_edits(ctx, visit)
 
@@ -149,7 +150,7 @@ def run(ctx, model_ok):
                 ctx.traces_validated += 1
                 want = "none" if after is None else after.hex()
                 if o != want:
-                    ctx.disagree("Model/Edit.v vs edit.edit_torrent (bytes written)", dict(desc, spec=spec),
+                    ctx.disagree("Model/Edit.v vs edit.edit_torrent (bytes written)", dict(desc, spec=spec, base_hex=before.hex()),
                                  o[:160], want[:160])
     sequences(ctx)
     foreign_layout(ctx)
@@ -173,7 +174,8 @@ def sequences(ctx):
                 for r in seq:
                     trees.quiet(edit_torrent, work, dict(r))
             except Exception as e:  # noqa
-                ctx.fail("edit-sequence-raised", {"metafile": label, "sequence": seq}, "edited metafile", type(e).__name__)
+                ctx.fail("edit-sequence-raised", {"metafile": label, "sequence": seq, "base_hex": oracle.read(mf).hex()},
+                         "edited metafile", type(e).__name__)
                 continue
             last = {}
             for r in seq:
@@ -185,7 +187,8 @@ def sequences(ctx):
             if last.get("announce") == "":
                 probs = [p for p in probs if "announce-list" not in p]
             if probs:
-                ctx.fail("edit-history", {"metafile": label, "sequence": seq}, "original with each named field at its last-written value", probs[:5])
+                ctx.fail("edit-history", {"metafile": label, "sequence": seq, "base_hex": oracle.read(mf).hex()},
+                         "original with each named field at its last-written value", probs[:5])
             ctx.case(key=("seq", i, label, repr(seq)), classes=[f"sequence of {len(seq)}"])
 
 
@@ -203,7 +206,8 @@ def foreign_layout(ctx):
         probs = frame_problems({"comment": ""}, raw, oracle.read(mf))
         ctx.case(key="foreign-layout", classes=["foreign layout"])
         if probs:
-            ctx.fail("foreign-layout", {"metafile": "top-level comment + info.comment", "request": {"comment": ""}},
+            ctx.fail("foreign-layout", {"metafile": "top-level comment + info.comment", "request": {"comment": ""}, "via": "lib",
+                                        "base_hex": raw.hex()},
                      "info.comment removed, top-level comment untouched", probs)
 
 
@@ -213,7 +217,147 @@ def classify(failure):
     return None
 
 
+# --------------------------------------------------------------------------- replay
+def _apply(tmp, base, reqs, via):
+    """write the base metafile into a scratch directory and apply the requests in turn; returns (after or None, exception or None)"""
+    core.use_repo_in_process()
+    from torrentfile.edit import edit_torrent
+    from torrentfile.cli import execute
+    work = os.path.join(tmp, "w.torrent")
+    with open(work, "wb") as fd:
+        fd.write(base)
+    exc = None
+    try:
+        for req in reqs:
+            if via == "cli":
+                argv = EC.cli_argv(work, req)
+                if argv is None:
+                    raise ValueError("request not expressible on the command line")
+                trees.quiet(execute, argv)
+            else:
+                trees.quiet(edit_torrent, work, dict(req))
+    except Exception as e:  # noqa
+        exc = e
+    after = oracle.read(work) if os.path.isfile(work) else None
+    return after, exc
+
+
+def _replay_single(inp, tmp, with_model):
+    """one (base metafile, request, via) case judged as `visit` does; returns 0 holds / 1 violated / 2 cannot evaluate"""
+    base, req, via = bytes.fromhex(inp["base_hex"]), inp["request"], inp.get("via", "lib")
+    print(f"[C07 replay] metafile {inp.get('metafile')} ({len(base)} bytes, sha1 {hashlib.sha1(base).hexdigest()[:12]}), "
+          f"via {via}, request {json.dumps(req, ensure_ascii=False)}")
+    after, exc = _apply(tmp, base, [req], via)
+    rc = 0
+    model_want = None
+    if exc is not None and isinstance(exc, IndexError) and after == base:
+        print("[C07 replay] implementation: IndexError on an empty tracker list, metafile untouched (accepted; the model answers none)")
+        model_want = "none"
+    elif exc is not None:
+        print(f"[C07 replay] VIOLATION edit-raised: {type(exc).__name__}: {exc}")
+        rc = 1
+    elif after is None:
+        print("[C07 replay] VIOLATION metafile-missing-after-edit")
+        rc = 1
+    else:
+        model_want = after.hex()
+        probs = frame_problems(req, base, after)
+        print(f"[C07 replay] implementation wrote {len(after)} bytes, sha1 {hashlib.sha1(after).hexdigest()[:12]}")
+        for pr in probs:
+            print("[C07 replay] VIOLATION edit-frame:", pr)
+        if probs:
+            rc = 1
+        else:
+            print("[C07 replay] judge: every named field has its value, every other key and the info span are unchanged")
+    if with_model and model_want is not None:
+        spec = req_spec(req, via)
+        outs = modelrun.run("edit", [(base.hex(), spec)])
+        if outs is None:
+            print("[C07 replay] cannot evaluate: the extracted edit driver failed to run (./check --setup)")
+            return rc or 2
+        same = outs[0] == model_want
+        print(f"[C07 replay] Model/Edit.v on spec {spec}: " + ("model and implementation agree" if same else "model and implementation DISAGREE"))
+        if not same:
+            k = next((j for j, (x, y) in enumerate(zip(outs[0], model_want)) if x != y), min(len(outs[0]), len(model_want)))
+            print(f"   first difference at hex offset {k}:\n   model ...{outs[0][max(0, k - 40):k + 60]}\n   impl  ...{model_want[max(0, k - 40):k + 60]}")
+            rc = 1
+    return rc
+
+
+def _replay_sequence(inp, tmp):
+    base, seq = bytes.fromhex(inp["base_hex"]), inp["sequence"]
+    print(f"[C07 replay] metafile {inp.get('metafile')} ({len(base)} bytes), sequence of {len(seq)} requests:")
+    for r in seq:
+        print("   ", json.dumps(r, ensure_ascii=False))
+    after, exc = _apply(tmp, base, seq, "lib")
+    if exc is not None:
+        print(f"[C07 replay] VIOLATION edit-sequence-raised: {type(exc).__name__}: {exc}")
+        return 1
+    if after is None:
+        print("[C07 replay] VIOLATION metafile missing after the sequence")
+        return 1
+    last = {}
+    for r in seq:
+        for f, v in r.items():
+            if v is not None:
+                last[f] = v
+    probs = frame_problems(last, base, after)
+    if last.get("announce") == "":
+        probs = [p for p in probs if "announce-list" not in p]
+    print("[C07 replay] last-write summary:", json.dumps(last, ensure_ascii=False))
+    for pr in probs:
+        print("[C07 replay] VIOLATION edit-history:", pr)
+    if not probs:
+        print("[C07 replay] judge: the file equals the original with each named field at its last-written value")
+    return 1 if probs else 0
+
+
+def _cannot(kind, why):
+    print(f"replay: cannot rebuild input of kind {kind} ({why})")
+    return 2
+
+
 def replay(ctx, data):
-    import json
-    print(json.dumps(data, indent=1)[:3000])
-    return 0
+    """rebuilds the recorded case (base metafile bytes, request(s), route), runs edit and judge again; 1 = violated, 0 = holds, 2 = cannot rebuild"""
+    from props import c17
+    rcs = []
+    kind = data.get("kind")
+    print(f"[C07 replay] kind={kind} implementation under test: {core.REPO}")
+    with core.Scratch("vc07r_") as tmp:
+        os.environ["HOME"] = tmp
+        inp = data.get("input") if isinstance(data.get("input"), dict) else None
+        if data.get("finding") or data.get("reproducer"):
+            rcs.append(c17.replay_finding("C07", data))
+        elif kind in ("edit-frame", "edit-raised", "metafile-missing-after-edit", "foreign-layout"):
+            if not inp or "base_hex" not in inp or "request" not in inp:
+                rcs.append(_cannot(kind, "the bytes of the base metafile were not recorded in this file"))
+            else:
+                if kind == "foreign-layout":
+                    print("[C07 replay] (a violation here on the unchanged tree is the known finding D11)")
+                rcs.append(_replay_single(inp, tmp, with_model=False))
+        elif kind in ("edit-history", "edit-sequence-raised"):
+            if not inp or "base_hex" not in inp or "sequence" not in inp:
+                rcs.append(_cannot(kind, "the bytes of the base metafile were not recorded in this file"))
+            else:
+                rcs.append(_replay_sequence(inp, tmp))
+        elif kind == "proof-or-correspondence-broken" or "what" in data:
+            dis = data.get("disagreements") or ([data] if "what" in data else [])
+            for d in dis[:5]:
+                di = d.get("input") if isinstance(d.get("input"), dict) else {}
+                if not str(d.get("what", "")).startswith("Model/Edit.v vs edit.edit_torrent"):
+                    rcs.append(_cannot("disagreement " + repr(d.get("what")), "unknown correspondence"))
+                elif "base_hex" not in di or "request" not in di:
+                    rcs.append(_cannot("disagreement Model/Edit.v vs edit.edit_torrent", "the bytes of the base metafile were not recorded"))
+                else:
+                    rcs.append(_replay_single(di, tmp, with_model=True))
+            if data.get("broken"):
+                rcs.append(c17.replay_broken(ctx, "C07", data["broken"]))
+            if not dis and not data.get("broken"):
+                print("[C07 replay] the file records neither a disagreement nor a broken obligation: nothing to replay")
+                rcs.append(2)
+        else:
+            rcs.append(_cannot(kind, "unknown kind"))
+    rc = 1 if 1 in rcs else (2 if 2 in rcs or not rcs else 0)
+    print("[C07 replay] verdict:", {0: "the property holds on this input", 1: "property VIOLATED on this input",
+                                    2: "could not be replayed exactly"}[rc])
+    return rc
